@@ -53,6 +53,8 @@ def replay_trace(EoReader, data, calls):
 
 def _rand_trace(rng):
     n = rng.randrange(0, 65)
+    if rng.random() < 0.03:
+        n = rng.choice([255, 256, 257, 258, 300, 520])      # beyond one byte / the interned small integers
     style = rng.random()
     if style < 0.4:
         data = [rng.choice([0, 1, 254, 255, 255, rng.randrange(256)]) for _ in range(n)]
@@ -75,7 +77,7 @@ def _rand_trace(rng):
             c = {"op": rng.choice(["get_string", "get_encoded_string"]), "r": r}
         elif x < 0.64:
             c = {"op": rng.choice(["get_fixed_string", "get_fixed_encoded_string"]), "r": r,
-                 "n": rng.choice([0, 1, 2, 3, 4, 7, 12, 70, -1]), "padded": rng.random() < 0.5}
+                 "n": rng.choice([0, 1, 2, 3, 4, 7, 12, 70, -1] + ([257, 300] if n > 200 else [])), "padded": rng.random() < 0.5}
         elif x < 0.76:
             c = {"op": "set_chunked", "r": r, "b": rng.random() < 0.6}
         elif x < 0.9:
